@@ -1,7 +1,188 @@
-(* Props/C20.v — A clean policy lint really means the governed rules hold. (work in progress) *)
-From AP Require Import Base.Str Gen.Tables Model.PolicyCmd Model.PolicyUrl Model.PolicyRules.
+(* Props/C20.v — A clean policy lint really means the governed rules hold.
+   Only statements, each closed by [exact], with [Print Assumptions] beneath, and non-vacuity examples.
+
+   Reading guide.  [extract_*], [agentpack_command_id], [dangerous_issues], [normalize], [matches], … are the
+   model of src/policy.rs and src/policy_allowlist.rs (Model/PolicyCmd.v, PolicyUrl.v, PolicyRules.v part 1).
+   [ref_*] is the reference reading, written from the shell's / clap's / git's point of view (part 2 of the
+   same files) and mirrored by the Python oracle of the harness. *)
+From AP Require Import Base.Str Gen.Tables Model.PolicyCmd Model.PolicyUrl Model.PolicyRules
+                       Proofs.PolicyCmdP Proofs.PolicyUrlP Proofs.PolicyRulesP.
 Open Scope N_scope.
 
-Theorem C20_ids_producible_stub : forallb (fun id => match agentpack_command_id (split_whitespace id) with Some x => str_eqb x id | None => false end) mutating_ids = true.
+(* ------------------------------------------------------------------ dangerous defaults *)
+
+(* A command file on which lint raises neither the allowed-tools nor a dangerous-defaults issue:
+   every agentpack invocation the reference shell reading finds in its `!bash` blocks, and whose
+   command clap resolves to a mutating id, carries both --json and --yes.  For all files, all front
+   matters, unbounded. *)
+Theorem C20_cmd_sound : forall md fm,
+  command_file_clean md fm = true ->
+  forall inv, In inv (ref_invocations md) -> ref_mutating inv = true ->
+  has_flag f_json inv = true /\ has_flag f_yes inv = true.
+Proof. exact cmd_sound. Qed.
+Print Assumptions C20_cmd_sound.
+
+(* lint reads a shell line exactly as the reference does (same invocations, same order) … *)
+Theorem C20_same_invocations : forall line,
+  extract_agentpack_invocations line = ref_invocations_line line.
+Proof. exact invocations_equiv. Qed.
+Print Assumptions C20_same_invocations.
+
+(* … and gives every invocation the reference calls mutating the very same command id *)
+Theorem C20_same_id_when_mutating : forall argv id,
+  ref_id argv = Some id -> In id mutating_ids -> agentpack_command_id argv = Some id.
+Proof. intros argv id H Hin. apply ref_id_lint; [exact H|apply mem_str_In; exact Hin]. Qed.
+Print Assumptions C20_same_id_when_mutating.
+
+(* every mutating id (finite table: the 19 entries of MUTATING_COMMAND_IDS as regenerated from the source)
+   is produced by the lint's mapping for some argv, which the reference resolves to the same id *)
+Theorem C20_ids_producible : forall id, In id mutating_ids ->
+  exists argv, agentpack_command_id argv = Some id /\ ref_id argv = Some id.
+Proof.
+  assert (A : forallb (fun id => match agentpack_command_id (split_whitespace id), ref_id (split_whitespace id) with
+                                 | Some x, Some y => str_eqb x id && str_eqb y id
+                                 | _, _ => false end) mutating_ids = true) by (vm_compute; reflexivity).
+  intros id Hin. rewrite forallb_forall in A. specialize (A id Hin). exists (split_whitespace id).
+  destruct (agentpack_command_id (split_whitespace id)) as [x|]; [|discriminate].
+  destruct (ref_id (split_whitespace id)) as [y|]; [|discriminate].
+  apply andb_true_iff in A as [A1 A2]. apply StrFacts.str_eqb_eq in A1, A2. subst. split; reflexivity.
+Qed.
+Print Assumptions C20_ids_producible.
+
+(* one notion of "mutating" (finite tables regenerated from the source on every run): the constant used by
+   lint and by help --json is the set of ids passed to the --yes guard, every id is a catalogue command, and
+   the lint skips a value after exactly the global options the CLI declares with a value *)
+Theorem C20_same_set :
+  (forall id, In id mutating_ids <-> In id guard_site_ids) /\
+  (forall id, In id mutating_ids -> In id catalogue_ids) /\
+  lint_uses_mutating_const = true /\ help_uses_mutating_const = true /\ guard_checks_mutating_const = true /\
+  (forall t, mem_str t cli_global_value_flags = mem_str t policy_flags_with_value) /\
+  (forall t, mem_str t cli_global_bool_flags = mem_str t policy_flags_no_value).
+Proof.
+  assert (S : forall A B, forallb (fun x => mem_str x B) A && forallb (fun x => mem_str x A) B = true ->
+                          forall id, In id A <-> In id B).
+  { intros A B H id. pose proof (mem_str_set_eq A B H id) as E. rewrite <- !mem_str_In, E. tauto. }
+  split; [apply S; vm_compute; reflexivity|].
+  split.
+  { assert (A : forallb (fun x => mem_str x catalogue_ids) mutating_ids = true) by (vm_compute; reflexivity).
+    intros id Hin. rewrite forallb_forall in A. apply mem_str_In, A, Hin. }
+  repeat split; try reflexivity; apply mem_str_set_eq; vm_compute; reflexivity.
+Qed.
+Print Assumptions C20_same_set.
+
+(* ------------------------------------------------------------------ the git-remote allowlist *)
+
+(* Whatever remote spelling [u] the matcher accepts for an allow entry [a] (both normalised as lint does):
+   in the reference decomposition the hosts are equal (case-insensitively, user-info up to the last '@' of
+   the authority excluded), the entry's path segments are a prefix of the remote's on a segment
+   boundary, the remote has no dot segment (literal or %2e), no port, and no user-info outside the ssh
+   spellings.  For every string [u] that the reference can read as a remote at all and every allow entry
+   that names a host (ref_allow: host[/path], or its https/http/ssh/git@ spelling, no port/query). *)
+Theorem C20_url_sound : forall u a du da,
+  ref_parse u = Some du -> ref_allow a = Some da ->
+  matches (normalize u) (normalize a) = true ->
+  ref_under du da = true.
+Proof. exact url_sound. Qed.
+Print Assumptions C20_url_sound.
+
+(* lint level: no allowlist issue for a module/policy-pack URL means it lies under some entry *)
+Theorem C20_remote_allowed_under : forall url allow du,
+  remote_allowed url allow = true -> ref_parse url = Some du ->
+  (forall a, In a allow -> ref_allow a <> None) ->
+  exists a da, In a allow /\ ref_allow a = Some da /\ ref_under du da = true.
+Proof. exact remote_allowed_under. Qed.
+Print Assumptions C20_remote_allowed_under.
+
+Theorem C20_supply_chain_rule : forall allowed_raw req pack lock ms,
+  supply_chain_issues allowed_raw req pack lock ms = [] ->
+  (nonblank_trimmed allowed_raw <> [] ->
+     (forall m url, In m ms -> cm_git m = Some url -> remote_allowed url (nonblank_trimmed allowed_raw) = true) /\
+     (forall url, pack = Some url -> remote_allowed url (nonblank_trimmed allowed_raw) = true)) /\
+  (req = true -> lockfile_issues lock ms = []).
+Proof. exact supply_chain_clean. Qed.
+Print Assumptions C20_supply_chain_rule.
+
+(* ------------------------------------------------------------------ the simpler rules, as decisions *)
+
+Theorem C20_skill_rule : forall fm, skill_issue_count fm = 0 ->
+  exists fields n d, fm = FmMap fields /\
+    yaml_get fields k_name = Some (YStr n) /\ trim n <> [] /\
+    yaml_get fields k_description = Some (YStr d) /\ trim d <> [].
+Proof. exact skill_rule. Qed.
+Print Assumptions C20_skill_rule.
+
+Theorem C20_allowed_tools_rule : forall md fm,
+  command_file_clean md fm = true -> uses_bash_tool md = true ->
+  exists fields v, fm = FmMap fields /\ yaml_get fields k_allowed_tools = Some v /\ allowed_tools_allows_bash v = true.
+Proof. exact allowed_tools_rule. Qed.
+Print Assumptions C20_allowed_tools_rule.
+
+Theorem C20_required_present : forall rt rm targets ms,
+  distribution_issues rt rm targets ms = [] ->
+  (forall t, In t (nonblank_trimmed rt) -> In t targets) /\
+  (forall id, In id (nonblank_trimmed rm) -> exists m, find_module id ms = Some m /\ cm_enabled m = true).
+Proof. exact required_present. Qed.
+Print Assumptions C20_required_present.
+
+Theorem C20_lock_pins : forall lock ms,
+  lockfile_issues lock ms = [] ->
+  forall m url, In m ms -> cm_enabled m = true -> cm_git m = Some url ->
+  exists entries e lurl commit,
+    lock = LockOk entries /\ find_lock (cm_id m) entries = Some e /\ le_git e = Some (lurl, commit) /\
+    normalize url = normalize lurl /\ is_hex_sha commit = true.
+Proof. exact lock_pins. Qed.
+Print Assumptions C20_lock_pins.
+
+(* ------------------------------------------------------------------ non-vacuity *)
+
+Definition fm_ok : frontmatter := FmMap [(k_allowed_tools, YSeq [Some (s "Bash(agentpack:*)")])].
+Definition nl : str := [10].
+Definition md_good : str :=
+  s "!bash" ++ nl ++ s "agentpack plan --json|agentpack overlay --yes edit skill:x --json ;echo ok" ++ nl.
+
+(* hypotheses of C20_cmd_sound are satisfiable by a file that does run a mutating command *)
+Example C20_nonvacuous_cmd :
+  command_file_clean md_good fm_ok = true /\
+  ref_invocations md_good = [[s "plan"; s "--json"]; [s "overlay"; s "--yes"; s "edit"; s "skill:x"; s "--json"]] /\
+  map ref_mutating (ref_invocations md_good) = [false; true].
+Proof. vm_compute. repeat split. Qed.
+
+(* the F9 witnesses (glued separator, import --apply, policy lock, flag inside a group, env assignment,
+   quoted word) are reported by the model of the fixed code *)
+Example C20_f9_cmd_witnesses_reported :
+  forallb (fun body => negb (command_file_clean (s "!bash" ++ nl ++ body ++ nl) fm_ok))
+    [s "agentpack update; agentpack lock"; s "agentpack update&&agentpack lock --json --yes";
+     s "agentpack import --apply"; s "agentpack policy lock"; s "agentpack overlay --json edit x";
+     s "AGENTPACK_HOME=/home/u/agentpack agentpack lock"; 34 :: s "agentpack" ++ 34 :: s " lock"] = true.
 Proof. vm_compute. reflexivity. Qed.
-Print Assumptions C20_ids_producible_stub.
+
+Definition view (u a : str) : option (bool * bool) :=
+  match ref_parse u, ref_allow a with
+  | Some du, Some da => Some (matches (normalize u) (normalize a), ref_under du da)
+  | _, _ => None
+  end.
+
+(* hypotheses of C20_url_sound are satisfiable, in each spelling *)
+Example C20_nonvacuous_url :
+  map (fun u => view u (s "github.com/org/"))
+      [s "git@github.com:org/r.git"; s "https://GitHub.com/Org/r"; s "ssh://git@github.com/org/r"; s "http://github.com/org/sub/r/"]
+  = [Some (true, true); Some (true, true); Some (true, true); Some (true, true)].
+Proof. vm_compute. reflexivity. Qed.
+
+(* the F9 URL witnesses and the classic tricks are readable remotes, not under the entry, and not matched *)
+Example C20_f9_url_witnesses_rejected :
+  map (fun u => view u (s "github.com/org"))
+      [s "ssh://evil.com/x@github.com/org/r"; s "https://github.com/org/../other/r"; s "https://github.com/org/%2E%2e/other/r";
+       s "git@github.com:org:x/r"; s "https://github.com@evil.com/org/r"; s "https://github.com:x@evil.test/org/r.git";
+       s "https://github.com.evil.com/org/r"; s "https://github.com/orgx/r"; s "https://github.com/org/..?x"]
+  = [Some (false, false); Some (false, false); Some (false, false); Some (false, false); Some (false, false);
+     Some (false, false); Some (false, false); Some (false, false); Some (false, false)].
+Proof. vm_compute. reflexivity. Qed.
+
+Example C20_nonvacuous_rules :
+  skill_issue_count (FmMap [(k_name, YStr (s "a")); (k_description, YStr (s "b"))]) = 0 /\
+  distribution_issues [s "codex"] [s "instructions:base"] [s "codex"] [Build_cfg_module (s "instructions:base") true None] = [] /\
+  supply_chain_issues [s "github.com/org/"] true None
+     (LockOk [Build_lock_entry (s "m") (Some (s "https://github.com/org/r.git", s "aaaaaaaaaaaaaaaaaaaaaaaaaaaaaaaaaaaaaaaa"))])
+     [Build_cfg_module (s "m") true (Some (s "git@github.com:org/r.git"))] = [].
+Proof. vm_compute. repeat split. Qed.
